@@ -1,5 +1,6 @@
 import YaqsModel.Lemmas.Born
 import YaqsModel.Lemmas.BornGlobal
+import YaqsModel.Lemmas.WeakEndToEnd
 
 /-!
 # C12 — sampling follows the Born rule; the outcome is keyed by qubit
@@ -384,5 +385,213 @@ theorem basis_dispatch (s : String) :
   split <;> simp_all
 
 example : (basisOf? "y").isSome = true ∧ (basisOf? "W").isSome = false := by decide +kernel
+
+end Yaqs.Born
+
+/-! ## what a noise-free WEAK run returns (extension xk12; helper lemmas `Lemmas/WeakEndToEnd.lean`, model `Model/WeakCounts.lean`)
+
+The chain on which `digital_tjm` calls `state.measure_shots(shots)` is the chain the gate applications produced from the
+initial chain `ts0`.  That chain represents `U_c · ψ₀` — this is the hypothesis `Represents n f U` of `Lemmas/LocalOp.lean`
+(`f` = "apply the circuit's gates in `digital_tjm`'s order", `U` = the circuit unitary): for exact gate applications it is
+the conclusion of C16's `mps_tracks` + `finalState_of_schedule` with C02's `events_are_schedule` (all three hold for
+`Mode.weak`; the run then ends with the event `.shots` instead of `.eval`).
+
+Index convention.  The dense state is indexed by configurations `σ : Fin n → Fin 2`, `σ i` = value of circuit qubit `i` =
+physical index of MPS site `i` (the operator of a gate on qubit `q` is `embedL (siteLens q) ·`, `Lemmas/ColumnsDense.lean`
+`denseSem`).  The returned key is `encode (List.ofFn σ) = Σ_i σ_i 2^i`: qubit 0 is the LEAST significant bit — the
+little-endian convention of `MPS.to_vec` (C06 `toVec_is_reversed`: site 0 least significant) and of qiskit's
+`Statevector` index; it is the reverse of the Kronecker / `MPO.to_matrix` convention (site 0 leftmost).
+-/
+namespace Yaqs.Born
+open Yaqs.CB Matrix
+
+/-- **C12.8 `shot_distribution`** (one shot of a noise-free weak run).  Let the final chain `A :: rest` be what an
+    operation `f` that `Represents` the circuit unitary `U` made of the initial chain `ts0`, in the form
+    `measure_single_shot` needs (right-canonical from site 1 on — C10 — and not the zero state).  Then for every
+    configuration `σ` of the `n` qubits
+    * the product of the conditionals the loop hands to `choice` along the branch `σ`, times `‖ψ‖²`, is
+      `‖⟨σ| U ψ₀⟩‖²` (`frobM` of the amplitude matrix over the two boundary bonds; `shot_distribution_amplitude` for the
+      scalar form), and
+    * when the loop runs to its end on that branch the returned key is `Σ_i σ_i 2^i < 2^n`, and bit `i` of the key is
+      the outcome `σ i` of qubit `i` (same numbering as the circuit; little-endian, see the section header). -/
+theorem shot_distribution {m n : Nat} (A : Site m) (rest : List (Site m))
+    (f : List (Mps.Alg.Site (Fin 2) (Fin m) CB.CRat) → List (Mps.Alg.Site (Fin 2) (Fin m) CB.CRat))
+    (U : Matrix (Fin n → Fin 2) (Fin n → Fin 2) CB.CRat) (ts0 : List (Mps.Alg.Site (Fin 2) (Fin m) CB.CRat))
+    (hrep : LocalOp.Represents n f U) (hlen0 : ts0.length = n) (hfinal : (A :: rest).map toMS = f ts0)
+    (hnorm : siteNorm A ≠ 0) (hcanon : RightCanon (A :: rest)) (σ : Fin n → Fin 2) :
+    branchProb basisZ (A :: rest) (List.ofFn σ) * siteNorm A = frobM (LocalOp.act U (LocalOp.Psi n ts0) σ) ∧
+    ∀ k, shotOutcome basisZ (A :: rest) (List.ofFn σ) = some k →
+      k = encode (List.ofFn σ) ∧ k < 2 ^ n ∧ ∀ i : Fin n, k.testBit i = decide (σ i = 1) := by
+  obtain ⟨hlen, hΨ⟩ := hrep ts0 hlen0
+  have hlen' : (A :: rest).length = n := by rw [← hlen, ← hfinal, List.length_map]
+  constructor
+  · have h := chain_rule basisZ basis_rotations.1 A rest (List.ofFn σ) (by rw [List.length_ofFn, hlen']) hnorm hcanon
+    rw [h, show basisZ.rsq = 1 from rfl, one_pow, one_mul, ampMat_Z, frob_eq_frobM, toM_chainS_Psi, hfinal, hΨ]
+  · intro k hk
+    obtain ⟨hk1, _⟩ := shot_outcome basisZ (A :: rest) (List.ofFn σ) k hk
+    refine ⟨hk1, ?_, fun i => ?_⟩
+    · have := encode_range (List.ofFn σ)
+      rw [List.length_ofFn] at this
+      rw [hk1]; exact this
+    · rw [hk1, encode_bits]
+      simp [List.getElem?_ofFn]
+
+/-- **C12.8 (scalar form, normalised state)** for boundary bonds of dimension one (zero-padded: every amplitude matrix of
+    the initial chain has the single entry `(0,0)`, the amplitude `ψ₀(c)`) and a normalised final state (`‖A‖² = 1`), the
+    probability that one shot walks down the branch `σ` IS `|⟨σ| U ψ₀⟩|² = |(U *ᵥ ψ₀) σ|²`. -/
+theorem shot_distribution_amplitude {m n : Nat} (A : Site (m + 1)) (rest : List (Site (m + 1)))
+    (f : List (Mps.Alg.Site (Fin 2) (Fin (m + 1)) CB.CRat) → List (Mps.Alg.Site (Fin 2) (Fin (m + 1)) CB.CRat))
+    (U : Matrix (Fin n → Fin 2) (Fin n → Fin 2) CB.CRat) (ts0 : List (Mps.Alg.Site (Fin 2) (Fin (m + 1)) CB.CRat))
+    (hrep : LocalOp.Represents n f U) (hlen0 : ts0.length = n) (hfinal : (A :: rest).map toMS = f ts0)
+    (hnorm : siteNorm A = 1) (hcanon : RightCanon (A :: rest))
+    (hscalar : ∀ c i j, (i ≠ 0 ∨ j ≠ 0) → LocalOp.Psi n ts0 c i j = 0) (σ : Fin n → Fin 2) :
+    branchProb basisZ (A :: rest) (List.ofFn σ) = ((U *ᵥ LocalOp.psi n ts0 0 0) σ).normSq := by
+  have h := (shot_distribution A rest f U ts0 hrep hlen0 hfinal (by rw [hnorm]; exact one_ne_zero) hcanon σ).1
+  rw [hnorm, mul_one] at h
+  rw [h, frobM_scalar _ (fun i j hij => act_scalar U _ i j (fun c => hscalar c i j hij) σ), LocalOp.act_apply]
+  rfl
+
+/-! non-vacuity: the Bell-type chain `[exA, exB]` = `(3/5)|00⟩ + (4i/5)|11⟩` is what "CX(0→1)-like" `f` makes of the product
+    chain `[exA0, exB]`: here simply `f` = replace the chain (it represents the permutation-free operator `U` below on this
+    input); the generic instance of `Represents` is `represents_applyAt` (one-site gate on any site), used in the second
+    example: an X gate on qubit 0 ONLY — the asymmetric circuit for which the bit order of the key matters. -/
+
+/-- the Pauli X matrix -/
+def exX : Matrix (Fin 2) (Fin 2) CB.CRat := Matrix.of fun s t => if s = t then 0 else 1
+
+/-- `|0⟩` on a padded bond (row / column vector `e_0`) -/
+def exZero : Site 2 := Site.ofFn fun s => Mat.ofFn fun i j => if s = 0 ∧ i = 0 ∧ j = 0 then 1 else 0
+
+/-- `X` contracted into the first tensor of `|00⟩`: the chain of `|10⟩` (qubit 0 set) -/
+def exOne : Site 2 := Site.ofFn fun s => Mat.ofFn fun i j => if s = 1 ∧ i = 0 ∧ j = 0 then 1 else 0
+
+private theorem exOne_eq : toMS exOne = LocalOp.applySite exX (toMS exZero) := by
+  funext s
+  ext i j
+  fin_cases s <;> fin_cases i <;> fin_cases j <;>
+    simp [toMS, LocalOp.applySite, exX, exOne, exZero, Site.get, Site.ofFn, Mat.ofFn, Mat.get, Fin.sum_univ_two,
+      Matrix.add_apply, Matrix.smul_apply]
+
+/-- `x` on qubit 0 of a two-qubit register initialised to `|00⟩`: all hypotheses of `shot_distribution_amplitude` hold with
+    `f = applyAt X 0` (`represents_applyAt`), `U = X ⊗ 1` on qubit 0; the only branch of non-zero probability is
+    `σ = (1, 0)` and its key is `1` (bit 0 set), not `2`. -/
+example :
+    LocalOp.Represents 2 (LocalOp.applyAt (ι := Fin 2) exX 0)
+      (Embed.embedL (Embed.siteLens (⟨0, by decide⟩ : Fin 2)) exX) ∧
+    [exOne, exZero].map toMS = LocalOp.applyAt exX 0 ([exZero, exZero].map toMS) ∧
+    siteNorm exOne = 1 ∧ RightCanon [exOne, exZero] ∧
+    branchProb basisZ [exOne, exZero] (List.ofFn ![1, 0]) = 1 ∧
+    branchProb basisZ [exOne, exZero] (List.ofFn ![0, 1]) = 0 ∧
+    shotOutcome basisZ [exOne, exZero] (List.ofFn ![1, 0]) = some 1 := by
+  refine ⟨LocalOp.represents_applyAt 2 0 (by decide) exX, ?_, by decide +kernel, ⟨?_, trivial⟩, by decide +kernel,
+    by decide +kernel, by decide +kernel⟩
+  · simp only [List.map_cons, List.map_nil, LocalOp.applyAt]
+    rw [exOne_eq]
+  · decide +kernel
+
+/-- **C12.9 `weak_counts`** (the histogram of a noise-free weak run).  `measure_shots` draws `shots` times from the
+    distribution of one shot (`shotDist`: weight of `σ` = `branchProb`, i.e. by `shot_distribution` the Born probability
+    `|⟨σ|U_c ψ₀⟩|²/‖ψ‖²`; trusted base: `Generator.choice` distributed as `p`, a fresh generator per shot) and tallies the
+    keys `encode σ`.  For every chain in the form `measure_single_shot` needs, every basis and every number of shots:
+    1. the draws form a probability distribution (mass 1), every outcome consists of exactly `shots` bit lists, and the
+       counts returned for it add up to `shots` (`counts_total` at the level of `measure_shots`);
+    2. every key in the returned counts is the key of a shot that was drawn, with a positive count — with `zero_never` (a
+       branch of Born probability 0 is never drawn) the support is ⊆ `{σ : amplitude ≠ 0}`;
+    3. the expected count of the key `encode σ₀` is `shots · branchProb σ₀` — by `chain_rule` / `shot_distribution`,
+       `shots · |⟨σ₀|U_c ψ₀⟩|² / ‖ψ‖²`. -/
+theorem weak_counts {n : Nat} (b : Basis) (hu : b.IsUnitary) (A : Site n) (rest : List (Site n))
+    (hnorm : siteNorm A ≠ 0) (hcanon : RightCanon (A :: rest)) (shots : Nat) :
+    Dist.mass (draws (shotDist b (A :: rest)) shots) = 1 ∧
+    (∀ o ∈ draws (shotDist b (A :: rest)) shots, o.2.length = shots ∧ total (weakCounts o.2) = shots ∧
+      ∀ p ∈ weakCounts o.2, 0 < p.2 ∧ ∃ σ ∈ o.2, p.1 = encode σ) ∧
+    ∀ σ0 : List (Fin 2), σ0.length = (A :: rest).length →
+      Dist.expect (draws (shotDist b (A :: rest)) shots) (fun l => ((countOf (encode σ0) (weakCounts l) : Nat) : Rat))
+        = shots * branchProb b (A :: rest) σ0 := by
+  have hmass : Dist.mass (shotDist b (A :: rest)) = 1 := by
+    unfold shotDist
+    rw [mass_map_pair]
+    exact branches_sum_one b hu A rest hnorm hcanon
+  refine ⟨mass_draws _ hmass shots, fun o ho => ?_, fun σ0 hσ0 => ?_⟩
+  · have hl := draws_length _ shots o ho
+    refine ⟨hl, by rw [weakCounts, total_tally, List.length_map, hl], fun p hp => ?_⟩
+    obtain ⟨h1, h2⟩ := mem_tally _ p hp
+    obtain ⟨σ, hσ, he⟩ := List.mem_map.mp h1
+    exact ⟨h2, σ, hσ, he.symm⟩
+  · have hcnt : ∀ l : List (List (Fin 2)),
+        ((countOf (encode σ0) (weakCounts l) : Nat) : Rat) = ((l.countP (fun σ => encode σ == encode σ0) : Nat) : Rat) := by
+      intro l
+      rw [weakCounts, countOf_tally, List.count, List.countP_map]
+      rfl
+    rw [Dist.expect_congr _ _ _ hcnt, expect_draws_countP _ hmass]
+    congr 1
+    unfold shotDist
+    rw [expect_map_pair]
+    rw [← sum_allBits_indicator (A :: rest).length (branchProb b (A :: rest)) σ0 hσ0]
+    congr 1
+    apply List.map_congr_left
+    intro σ hσ
+    have hlen := allBits_length _ σ hσ
+    by_cases h : σ = σ0
+    · subst h; simp
+    · have : ¬ encode σ = encode σ0 := fun he => h (encode_injective σ σ0 (by rw [hlen, hσ0]) he)
+      simp [h, this]
+
+/-- the Bell-type chain `[exA, exB]`, three shots: mass one, and the expected counts of the keys `0 = 00`, `3 = 11`,
+    `1 = 10` are `3·9/25`, `3·16/25`, `0` -/
+example : siteNorm exA ≠ 0 ∧ RightCanon [exA, exB] ∧
+    (3 : Rat) * branchProb basisZ [exA, exB] [0, 0] = 27 / 25 ∧ (3 : Rat) * branchProb basisZ [exA, exB] [1, 1] = 48 / 25 ∧
+    branchProb basisZ [exA, exB] [1, 0] = 0 ∧ encode [1, 1] = 3 ∧
+    weakCounts [[1, 1], [0, 0], [1, 1]] = [(3, 2), (0, 1)] ∧
+    Dist.expect (draws (shotDist basisZ [exA, exB]) 2) (fun l => ((countOf 3 (weakCounts l) : Nat) : Rat)) = 32 / 25 := by
+  refine ⟨by decide +kernel, exCanon, by decide +kernel, by decide +kernel, by decide +kernel, by decide, by decide,
+    by decide +kernel⟩
+
+/-- **C12.9' `weak_counts_born`** `weak_counts`.3 composed with `shot_distribution`: for the final chain of a noise-free run
+    (it `Represents` `U`, right-canonical, any norm) the expected count of the key `Σ_i σ_i 2^i` over `shots` shots, times
+    `‖ψ‖²`, is `shots · ‖⟨σ|U ψ₀⟩‖²`. -/
+theorem weak_counts_born {m n : Nat} (A : Site m) (rest : List (Site m))
+    (f : List (Mps.Alg.Site (Fin 2) (Fin m) CB.CRat) → List (Mps.Alg.Site (Fin 2) (Fin m) CB.CRat))
+    (U : Matrix (Fin n → Fin 2) (Fin n → Fin 2) CB.CRat) (ts0 : List (Mps.Alg.Site (Fin 2) (Fin m) CB.CRat))
+    (hrep : LocalOp.Represents n f U) (hlen0 : ts0.length = n) (hfinal : (A :: rest).map toMS = f ts0)
+    (hnorm : siteNorm A ≠ 0) (hcanon : RightCanon (A :: rest)) (shots : Nat) (σ : Fin n → Fin 2) :
+    Dist.expect (draws (shotDist basisZ (A :: rest)) shots)
+        (fun l => ((countOf (encode (List.ofFn σ)) (weakCounts l) : Nat) : Rat)) * siteNorm A
+      = shots * frobM (LocalOp.act U (LocalOp.Psi n ts0) σ) := by
+  have hlen' : (A :: rest).length = n := by
+    rw [← (hrep ts0 hlen0).1, ← hfinal, List.length_map]
+  rw [(weak_counts basisZ basis_rotations.1 A rest hnorm hcanon shots).2.2 (List.ofFn σ)
+      (by rw [List.length_ofFn, hlen']),
+    mul_assoc, (shot_distribution A rest f U ts0 hrep hlen0 hfinal hnorm hcanon σ).1]
+
+/-- **C12.10 `shot_distribution_basis`** (X / Y / Z single shot) in any of the three bases the product of the conditionals
+    along the branch `σ` is the Born probability of `σ` for the ROTATED state, `rsq^L ‖Π_k (R A_k)[σ_k]‖² / ‖ψ‖²`, the
+    branches of one shot form a probability distribution, and the key of a completed branch is `Σ_i σ_i 2^i` with bit `i` =
+    outcome of site `i` — `chain_rule`, `branches_sum_one`, `shot_outcome`, `encode_bits` with the unitarity of the three
+    rotations (`basis_rotations`) discharged. -/
+theorem shot_distribution_basis {n : Nat} (s : String) (b : Basis) (hb : basisOf? s = some b) (A : Site n)
+    (rest : List (Site n)) (hnorm : siteNorm A ≠ 0) (hcanon : RightCanon (A :: rest)) :
+    Dist.mass (shotDist b (A :: rest)) = 1 ∧
+    ∀ σ : List (Fin 2), σ.length = (A :: rest).length →
+      branchProb b (A :: rest) σ * siteNorm A = b.rsq ^ σ.length * frob (ampMat b (A :: rest) σ) ∧
+      ∀ k, shotOutcome b (A :: rest) σ = some k → k = encode σ ∧ ∀ i, k.testBit i = decide (σ[i]? = some 1) := by
+  have hu : b.IsUnitary := by
+    rw [basis_dispatch] at hb
+    split at hb
+    · cases hb; exact basis_rotations.1
+    · split at hb
+      · cases hb; exact basis_rotations.2.1
+      · split at hb
+        · cases hb; exact basis_rotations.2.2
+        · cases hb
+  refine ⟨?_, fun σ hσ => ⟨chain_rule b hu A rest σ hσ hnorm hcanon, fun k hk => ?_⟩⟩
+  · unfold shotDist
+    rw [mass_map_pair]
+    exact branches_sum_one b hu A rest hnorm hcanon
+  · obtain ⟨hk1, _⟩ := shot_outcome b (A :: rest) σ k hk
+    exact ⟨hk1, fun i => by rw [hk1, encode_bits]⟩
+
+example : basisOf? "x" = some basisX ∧ siteNorm exA ≠ 0 ∧ RightCanon [exA, exB] ∧
+    branchProb basisX [exA, exB] [1, 0] = 1 / 4 ∧ shotOutcome basisX [exA, exB] [1, 0] = some 1 := by
+  refine ⟨by rw [basis_dispatch, if_neg (by decide +kernel), if_pos (by decide +kernel)], by decide +kernel, exCanon, by decide +kernel, by decide +kernel⟩
 
 end Yaqs.Born
